@@ -159,6 +159,7 @@ type Explorer struct {
 	pcHash   uint64
 	brSite   string
 	fitCache map[[2]uint64]bool
+	assumeCache map[[2]uint64]string
 }
 
 func NewExplorer(ts *TermStore, sol *Solver, sh *Shared) *Explorer {
@@ -210,6 +211,23 @@ func (e *Explorer) implied(c *Term) bool {
 	}
 	r := e.sol.CheckWith(e.ts.Op("not", 0, c)) == "unsat"
 	e.fitCache[key] = r
+	return r
+}
+
+// assumeCheck is checkWith for verifAssume, cached per (path condition, term): the stateless search re-executes the
+// common prefix of sibling paths, and every re-execution meets the same assumptions under the same path condition.
+func (e *Explorer) assumeCheck(c *Term) string {
+	key := [2]uint64{e.pcHash, uint64(c.id)}
+	if r, ok := e.assumeCache[key]; ok {
+		return r
+	}
+	r := e.checkWith(c)
+	if r != "unknown" {
+		if e.assumeCache == nil {
+			e.assumeCache = map[[2]uint64]string{}
+		}
+		e.assumeCache[key] = r
+	}
 	return r
 }
 
